@@ -1598,3 +1598,47 @@ package gogen
 //@ loop 0 invariant imp(named == nil, typ == entry(typ) && !ghost(methodTried))
 //@ assertcall embeddedField: ghost(methodTried)
 //@ assertcall field: ghost(methodTried) || named != nil || !(typeis(entry(typ), *types.Pointer) && typeis(types.Unalias(entry(typ).(*types.Pointer).Elem()), *types.Named))
+
+// stores into objects of the node types of which package initialisers create shared instances (syntax-tree singletons,
+// the iterator helper statements, elemNone): every field store whose base pointer is not an allocation of the same
+// function, found by the scan of the whole module, with the reason why it cannot hit a shared instance
+//@ site gogen.AssignableConv own.nodestore 2 reviewed: [Elem.Type, Elem.Val] the targets are operands or results of this build (stack elements, fresh Elems); the only shared Elem is elemNone, the all-nil placeholder pushed by None(), which reaches this store only if it is used as the callee or an argument of a call, operator or conversion — documented misuse of None()
+//@ site gogen.(*CodeBuilder).BinaryOp own.nodestore 1 reviewed: [Elem.Src] the targets are operands or results of this build (stack elements, fresh Elems); the only shared Elem is elemNone, the all-nil placeholder pushed by None(), which reaches this store only if it is used as the callee or an argument of a call, operator or conversion — documented misuse of None()
+//@ site gogen.(*CodeBuilder).CallWithEx own.nodestore 3 reviewed: [Elem.Src, Elem.Type] the targets are operands or results of this build (stack elements, fresh Elems); the only shared Elem is elemNone, the all-nil placeholder pushed by None(), which reaches this store only if it is used as the callee or an argument of a call, operator or conversion — documented misuse of None()
+//@ site gogen.(*CodeBuilder).NewTypeDecls own.nodestore 1 reviewed: [GenDecl.Tok] the declaration node was created for this build by the declaring API (NewTypeDecls, NewVarDefs, NewConstDefs, newValueSpec); the shared GenDecl/ValueSpec live inside the iterator helper statement stmtXGoOkDecl, which is only placed into emitted statement lists and never handed to a declaration-editing function (printer.checkSpecs rewrites only TYPE declarations with a deleted spec; the shared one is a VAR declaration)
+//@ site gogen.(*CodeBuilder).UnaryOpEx own.nodestore 1 reviewed: [Elem.Src] the targets are operands or results of this build (stack elements, fresh Elems); the only shared Elem is elemNone, the all-nil placeholder pushed by None(), which reaches this store only if it is used as the callee or an argument of a call, operator or conversion — documented misuse of None()
+//@ site gogen.(*CodeBuilder).UntypedBigInt own.nodestore 3 reviewed: [Elem.CVal, Elem.Src, Elem.Type] the targets are operands or results of this build (stack elements, fresh Elems); the only shared Elem is elemNone, the all-nil placeholder pushed by None(), which reaches this store only if it is used as the callee or an argument of a call, operator or conversion — documented misuse of None()
+//@ site gogen.(*CodeBuilder).UntypedBigRat own.nodestore 3 reviewed: [Elem.CVal, Elem.Src, Elem.Type] the targets are operands or results of this build (stack elements, fresh Elems); the only shared Elem is elemNone, the all-nil placeholder pushed by None(), which reaches this store only if it is used as the callee or an argument of a call, operator or conversion — documented misuse of None()
+//@ site gogen.(*CodeBuilder).ValWithUnit own.nodestore 4 reviewed: [Elem.CVal, Elem.Type, Elem.Val] the targets are operands or results of this build (stack elements, fresh Elems); the only shared Elem is elemNone, the all-nil placeholder pushed by None(), which reaches this store only if it is used as the callee or an argument of a call, operator or conversion — documented misuse of None()
+//@ site gogen.(*CodeBuilder).btiMethod own.nodestore 3 reviewed: [Elem.Type, Elem.Val] the targets are operands or results of this build (stack elements, fresh Elems); the only shared Elem is elemNone, the all-nil placeholder pushed by None(), which reaches this store only if it is used as the callee or an argument of a call, operator or conversion — documented misuse of None()
+//@ site gogen.(*CodeBuilder).funcExSigOf own.nodestore 2 reviewed: [Elem.Type, Elem.Val] the targets are operands or results of this build (stack elements, fresh Elems); the only shared Elem is elemNone, the all-nil placeholder pushed by None(), which reaches this store only if it is used as the callee or an argument of a call, operator or conversion — documented misuse of None()
+//@ site gogen.(*CodeBuilder).methodSigOf own.nodestore 2 reviewed: [SelectorExpr.X] the selector node was built for this operand by selector()/toObjectExpr() in this build; the shared SelectorExpr (exprIterNext[0].Fun) is only ever placed into emitted assignment statements, never on the operand stack
+//@ site gogen.(*ConstDefs).NextAt own.nodestore 1 reviewed: [ValueSpec.Names] as for GenDecl: value specs edited here were created by this build; the shared ValueSpec is reachable only through stmtXGoOkDecl
+//@ site gogen.(*ConstDefs).SetComments own.nodestore 1 reviewed: [GenDecl.Doc] the declaration node was created for this build by the declaring API (NewTypeDecls, NewVarDefs, NewConstDefs, newValueSpec); the shared GenDecl/ValueSpec live inside the iterator helper statement stmtXGoOkDecl, which is only placed into emitted statement lists and never handed to a declaration-editing function (printer.checkSpecs rewrites only TYPE declarations with a deleted spec; the shared one is a VAR declaration)
+//@ site gogen.DefaultConv own.nodestore 1 reviewed: [Elem.Val] the targets are operands or results of this build (stack elements, fresh Elems); the only shared Elem is elemNone, the all-nil placeholder pushed by None(), which reaches this store only if it is used as the callee or an argument of a call, operator or conversion — documented misuse of None()
+//@ site gogen.InsertStmtFront own.nodestore 1 reviewed: [BlockStmt.List] the body is the fresh block built for the loop being closed, handed to the client body handler; the shared BlockStmt is the body of stmtBreakIfNotXGoOk, which is an element of such a list, never the list owner
+//@ site gogen.(*Package).doNewAlias own.nodestore 1 reviewed: [GenDecl.Specs] the declaration node was created for this build by the declaring API (NewTypeDecls, NewVarDefs, NewConstDefs, newValueSpec); the shared GenDecl/ValueSpec live inside the iterator helper statement stmtXGoOkDecl, which is only placed into emitted statement lists and never handed to a declaration-editing function (printer.checkSpecs rewrites only TYPE declarations with a deleted spec; the shared one is a VAR declaration)
+//@ site gogen.(*Package).doNewType own.nodestore 1 reviewed: [GenDecl.Specs] the declaration node was created for this build by the declaring API (NewTypeDecls, NewVarDefs, NewConstDefs, newValueSpec); the shared GenDecl/ValueSpec live inside the iterator helper statement stmtXGoOkDecl, which is only placed into emitted statement lists and never handed to a declaration-editing function (printer.checkSpecs rewrites only TYPE declarations with a deleted spec; the shared one is a VAR declaration)
+//@ site gogen.(*Package).newValueDecl own.nodestore 2 reviewed: [ValueSpec.Names, ValueSpec.Type] as for GenDecl: value specs edited here were created by this build; the shared ValueSpec is reachable only through stmtXGoOkDecl
+//@ site gogen.(*TemplateSignature).instantiate own.nodestore 1 reviewed: [Elem.Type] the targets are operands or results of this build (stack elements, fresh Elems); the only shared Elem is elemNone, the all-nil placeholder pushed by None(), which reaches this store only if it is used as the callee or an argument of a call, operator or conversion — documented misuse of None()
+//@ site gogen.(*TypeDefs).Complete own.nodestore 2 reviewed: [GenDecl.Doc, GenDecl.Specs] the declaration node was created for this build by the declaring API (NewTypeDecls, NewVarDefs, NewConstDefs, newValueSpec); the shared GenDecl/ValueSpec live inside the iterator helper statement stmtXGoOkDecl, which is only placed into emitted statement lists and never handed to a declaration-editing function (printer.checkSpecs rewrites only TYPE declarations with a deleted spec; the shared one is a VAR declaration)
+//@ site gogen.(*TypeDefs).SetComments own.nodestore 1 reviewed: [GenDecl.Doc] the declaration node was created for this build by the declaring API (NewTypeDecls, NewVarDefs, NewConstDefs, newValueSpec); the shared GenDecl/ValueSpec live inside the iterator helper statement stmtXGoOkDecl, which is only placed into emitted statement lists and never handed to a declaration-editing function (printer.checkSpecs rewrites only TYPE declarations with a deleted spec; the shared one is a VAR declaration)
+//@ site gogen.(*VarDefs).SetComments own.nodestore 1 reviewed: [GenDecl.Doc] the declaration node was created for this build by the declaring API (NewTypeDecls, NewVarDefs, NewConstDefs, newValueSpec); the shared GenDecl/ValueSpec live inside the iterator helper statement stmtXGoOkDecl, which is only placed into emitted statement lists and never handed to a declaration-editing function (printer.checkSpecs rewrites only TYPE declarations with a deleted spec; the shared one is a VAR declaration)
+//@ site gogen.assignable own.nodestore 3 reviewed: [Elem.Type, Elem.Val] the targets are operands or results of this build (stack elements, fresh Elems); the only shared Elem is elemNone, the all-nil placeholder pushed by None(), which reaches this store only if it is used as the callee or an argument of a call, operator or conversion — documented misuse of None()
+//@ site gogen.(*astVisitor).Visit own.nodestore 1 reviewed: [Ident.Name] identifiers renamed or denoted here are per-build nodes (import identifiers of a file, the fresh Sel of a qualified reference, the fresh result of ident()); the shared identifiers (true/false/nil/_/append.../_xgo_ok/_xgo_it) are never stored in an import table and are never the result of toObjectExpr
+//@ site gogen.deleteValueSpec own.nodestore 2 reviewed: [GenDecl.Specs, ValueSpec.Names] the declaration node was created for this build by the declaring API (NewTypeDecls, NewVarDefs, NewConstDefs, newValueSpec); the shared GenDecl/ValueSpec live inside the iterator helper statement stmtXGoOkDecl, which is only placed into emitted statement lists and never handed to a declaration-editing function (printer.checkSpecs rewrites only TYPE declarations with a deleted spec; the shared one is a VAR declaration); as for GenDecl: value specs edited here were created by this build; the shared ValueSpec is reachable only through stmtXGoOkDecl
+//@ site gogen.instanceFunc own.nodestore 3 reviewed: [Elem.Type, Elem.Val] the targets are operands or results of this build (stack elements, fresh Elems); the only shared Elem is elemNone, the all-nil placeholder pushed by None(), which reaches this store only if it is used as the callee or an argument of a call, operator or conversion — documented misuse of None()
+//@ site gogen.instanceInferFunc own.nodestore 2 reviewed: [Elem.Type, Elem.Val] the targets are operands or results of this build (stack elements, fresh Elems); the only shared Elem is elemNone, the all-nil placeholder pushed by None(), which reaches this store only if it is used as the callee or an argument of a call, operator or conversion — documented misuse of None()
+//@ site gogen.matchArgType own.nodestore 2 reviewed: [Elem.Type, Elem.Val] the targets are operands or results of this build (stack elements, fresh Elems); the only shared Elem is elemNone, the all-nil placeholder pushed by None(), which reaches this store only if it is used as the callee or an argument of a call, operator or conversion — documented misuse of None()
+//@ site gogen.matchFuncCall own.nodestore 5 reviewed: [Elem.CVal, Elem.Type, Elem.Val, SelectorExpr.Sel, UnaryExpr.X] the targets are operands or results of this build (stack elements, fresh Elems); the only shared Elem is elemNone, the all-nil placeholder pushed by None(), which reaches this store only if it is used as the callee or an argument of a call, operator or conversion — documented misuse of None(); the selector node was built for this operand by selector()/toObjectExpr() in this build; the shared SelectorExpr (exprIterNext[0].Fun) is only ever placed into emitted assignment statements, never on the operand stack; the unary node is the operator node being assembled for this call; the shared UnaryExpr is the condition of stmtBreakIfNotXGoOk, reachable only from emitted statements
+//@ site gogen.matchFuncType own.nodestore 1 reviewed: [Elem.Type] the targets are operands or results of this build (stack elements, fresh Elems); the only shared Elem is elemNone, the all-nil placeholder pushed by None(), which reaches this store only if it is used as the callee or an argument of a call, operator or conversion — documented misuse of None()
+//@ site gogen.matchType own.nodestore 3 reviewed: [Elem.Type, Elem.Val] the targets are operands or results of this build (stack elements, fresh Elems); the only shared Elem is elemNone, the all-nil placeholder pushed by None(), which reaches this store only if it is used as the callee or an argument of a call, operator or conversion — documented misuse of None()
+//@ site gogen.matchTypeCast own.nodestore 1 reviewed: [Elem.CVal] the targets are operands or results of this build (stack elements, fresh Elems); the only shared Elem is elemNone, the all-nil placeholder pushed by None(), which reaches this store only if it is used as the callee or an argument of a call, operator or conversion — documented misuse of None()
+//@ site gogen.methodToFuncSig own.nodestore 3 reviewed: [Elem.Val, SelectorExpr.Sel, SelectorExpr.X] the targets are operands or results of this build (stack elements, fresh Elems); the only shared Elem is elemNone, the all-nil placeholder pushed by None(), which reaches this store only if it is used as the callee or an argument of a call, operator or conversion — documented misuse of None(); the selector node was built for this operand by selector()/toObjectExpr() in this build; the shared SelectorExpr (exprIterNext[0].Fun) is only ever placed into emitted assignment statements, never on the operand stack
+//@ site gogen.newUnsafeAddExpr own.nodestore 1 reviewed: [Ident.Name] identifiers renamed or denoted here are per-build nodes (import identifiers of a file, the fresh Sel of a qualified reference, the fresh result of ident()); the shared identifiers (true/false/nil/_/append.../_xgo_ok/_xgo_it) are never stored in an import table and are never the result of toObjectExpr
+//@ site gogen.newUnsafeDataExpr own.nodestore 1 reviewed: [Ident.Name] identifiers renamed or denoted here are per-build nodes (import identifiers of a file, the fresh Sel of a qualified reference, the fresh result of ident()); the shared identifiers (true/false/nil/_/append.../_xgo_ok/_xgo_it) are never stored in an import table and are never the result of toObjectExpr
+//@ site gogen.newValueSpec own.nodestore 1 reviewed: [GenDecl.Specs] the declaration node was created for this build by the declaring API (NewTypeDecls, NewVarDefs, NewConstDefs, newValueSpec); the shared GenDecl/ValueSpec live inside the iterator helper statement stmtXGoOkDecl, which is only placed into emitted statement lists and never handed to a declaration-editing function (printer.checkSpecs rewrites only TYPE declarations with a deleted spec; the shared one is a VAR declaration)
+//@ site gogen.restoreArgs own.nodestore 2 reviewed: [Elem.Type, Elem.Val] the targets are operands or results of this build (stack elements, fresh Elems); the only shared Elem is elemNone, the all-nil placeholder pushed by None(), which reaches this store only if it is used as the callee or an argument of a call, operator or conversion — documented misuse of None()
+//@ site gogen.setDenoted own.nodestore 2 reviewed: [Ident.Obj] identifiers renamed or denoted here are per-build nodes (import identifiers of a file, the fresh Sel of a qualified reference, the fresh result of ident()); the shared identifiers (true/false/nil/_/append.../_xgo_ok/_xgo_it) are never stored in an import table and are never the result of toObjectExpr
+//@ site printer.checkSpecs own.nodestore 2 reviewed: [GenDecl.Specs] the declaration node was created for this build by the declaring API (NewTypeDecls, NewVarDefs, NewConstDefs, newValueSpec); the shared GenDecl/ValueSpec live inside the iterator helper statement stmtXGoOkDecl, which is only placed into emitted statement lists and never handed to a declaration-editing function (printer.checkSpecs rewrites only TYPE declarations with a deleted spec; the shared one is a VAR declaration)
+//@ site util.CheckParenExpr own.nodestore 1 reviewed: [SelectorExpr.X] the selector node was built for this operand by selector()/toObjectExpr() in this build; the shared SelectorExpr (exprIterNext[0].Fun) is only ever placed into emitted assignment statements, never on the operand stack
